@@ -422,7 +422,7 @@ def run_history_cases(chk, variant, text, nm, r, one_go_failed, quick, nscen, hs
 def run(chk):
     quick = chk.tier == "quick"
     ok, log = chk.prove(["extract/Extract_C03.vo", "extract/Extract_ED.vo"], extra_props=["Properties_C10_source.v"])
-    chk.trusted += ["translator/gen_ham.py (statement splitter + shape recognition, ~1000 lines of Python): reads the loops, cells, value expressions, product cases and "
+    chk.trusted += ["translator/gen_ham.py (statement splitter + shape recognition, ~1500 lines of Python): reads the loops, cells, value expressions, product cases and "
                     "sparsification steps of FieldOperatorPart::compute, the loop of FieldOperator::compute and the statements of FieldOperatorContainer::prepareAll / "
                     "computeAll off the source into coq/gen/Gen_FieldOp*.v, Gen_Foc*.v; Properties_C10_source.v is about those generated descriptions and about "
                     "FieldOpGen.v's reading of them; a function that leaves the recognised shape falls back to the snapshot and is then tied by the runs only",
